@@ -345,7 +345,7 @@ def simulator_run(problem, insts, plan, order):
     return True, g, st
 
 
-def eval_cases(ctx, pre, cases, owners, chunk=60):
+def eval_cases(ctx, pre, cases, owners, chunk=64):
     """Evaluate Corr_C27.code on every case; each Coq file only defines the problems its cases mention."""
     from concurrent.futures import ThreadPoolExecutor
     chunks = [(k, list(range(k, min(k + chunk, len(cases))))) for k in range(0, len(cases), chunk)]
@@ -358,7 +358,7 @@ def eval_cases(ctx, pre, cases, owners, chunk=60):
                              preamble=preamble, shard=len(idxs), label="plans%d" % k)
 
     out = []
-    with ThreadPoolExecutor(max_workers=4) as ex:
+    with ThreadPoolExecutor(max_workers=6) as ex:
         for r in ex.map(one, chunks):
             out += r
     return out
@@ -371,9 +371,9 @@ def run(ctx):
     t_proofs = time.time()
     rng = ctx.rng
     if ctx.quick:
-        n_noinv, n_inv, maxlen, want, budget, branch = 60, 40, 4, 4, 200, 3
+        n_noinv, n_inv, maxlen, want, budget, branch = 30, 18, 4, 4, 200, 3
     else:
-        n_noinv, n_inv, maxlen, want, budget, branch = 500, 300, 5, 6, 500, 3
+        n_noinv, n_inv, maxlen, want, budget, branch = 300, 200, 5, 6, 500, 3
     sources = [("hand", hp, None) for hp in hand_corpus()]
     noinv = dict(invariants=False, bounded=False, max_actions=3)
     sources += [("noinv", None, dict(noinv)) for _ in range(n_noinv)]
